@@ -125,6 +125,11 @@ class FakeComp(workflow.ComponentState):
     notifyFinished = property(lambda s: s._fin)
     notifyPostMortem = property(lambda s: s._pm_self if s._in_finish else s._pm)
     producers = property(lambda s: [s.drv.comps[p] for p in s.d['preds']])
+    # memoization: no hash is ever available, so a configured CDB is consulted for nothing
+    memoization_hash = property(lambda s: None)
+    memoization_hash_fuzzy = property(lambda s: None)
+    memoization_info = property(lambda s: {})
+    memoization_info_fuzzy = property(lambda s: {})
 
     def __hash__(self):
         return self.idx
@@ -191,7 +196,7 @@ class ManualEvent(object):
 
 
 class Driver(object):
-    def __init__(self, W, outcome):
+    def __init__(self, W, outcome, with_cdb=False):
         self.W = W
         self.outcome = outcome
         self.n = len(W)
@@ -234,7 +239,10 @@ class Driver(object):
         tr.printStatus = lambda *a, **k: None
         experiment.appenv.HybridConfiguration.defaultConfiguration = classmethod(
             lambda cls: types.SimpleNamespace(handleMigration=lambda *a, **k: None))
-        self.ctl = control.Controller(exp, experiment_name='verif')
+        # with_cdb: the controller is given a (never matching) central database, i.e. memoization is switched on
+        cdb = types.SimpleNamespace(cdb_get_document_component=lambda **kw: [],
+                                    cdb_query_component_files_exist=lambda *a, **k: False) if with_cdb else None
+        self.ctl = control.Controller(exp, experiment_name='verif', cdb=cdb)
         self.ctl.controllerPool = reactivex.scheduler.ImmediateScheduler()
         self.ctl._observe_completionCheck = lambda stage: None
         self.ev = ManualEvent()
